@@ -759,7 +759,10 @@ func errorIsUsed(call *ssa.Call) bool {
 // ---- R06f ------------------------------------------------------------------------------------
 
 func ruleR06f(c *Ctx) {
-	const rule = "R06f"
+	ruleR06fAs(c, "R06f", "a path returns an error although the log was already handed to the batcher: the caller sees a failure but the entry is persisted")
+}
+
+func ruleR06fAs(c *Ctx, rule, message string) {
 	m := c.cmdModel(rule)
 	if !m.ok {
 		return
@@ -844,7 +847,7 @@ func ruleR06f(c *Ctx) {
 					}
 				}
 				if !isNil {
-					obl.violate(key, ret.Pos(), "a path returns an error although the log was already handed to the batcher: the caller sees a failure but the entry is persisted", pc.Trail())
+					obl.violate(key, ret.Pos(), message, pc.Trail())
 				}
 			},
 		}
